@@ -32,11 +32,12 @@ type c09Case struct {
 	Fault   string `json:"fault"` // complete | abort-after-hello | stall | garbage
 	Between bool   `json:"between"`
 	Plain   bool   `json:"plain_port"`
+	Burst   bool   `json:"burst,omitempty"` // the faulty client and the next valid client connect concurrently
 	Choices []int  `json:"choices,omitempty"`
 }
 
 func (c c09Case) name() string {
-	return fmt.Sprintf("%s|%s|%s|between=%v|plain=%v", c.Config, c.Cred, c.Fault, c.Between, c.Plain)
+	return fmt.Sprintf("%s|%s|%s|between=%v|plain=%v|burst=%v", c.Config, c.Cred, c.Fault, c.Between, c.Plain, c.Burst)
 }
 
 var c09Creds = []string{"none", "plain-text", "self-signed", "foreign-ca", "expired", "wrong-name", "name-on-intermediate", "valid"}
@@ -225,8 +226,16 @@ func (w *c09World) body() {
 	if w.cs.Between {
 		step("clientV1", func() { w.tlsClient("V1", "valid", "complete") })
 	}
-	step("clientF", func() { w.tlsClient("F", w.cs.Cred, w.cs.Fault) })
-	step("clientV2", func() { w.tlsClient("V2", "valid", "complete") })
+	if w.cs.Burst {
+		// both arrive while the accept loop is busy: their connections may sit in
+		// the backlog together and be accepted back to back
+		vrt.Go("clientF", func() { w.tlsClient("F", w.cs.Cred, w.cs.Fault) })
+		vrt.Go("clientV2", func() { w.tlsClient("V2", "valid", "complete") })
+		vrt.WaitQuiet()
+	} else {
+		step("clientF", func() { w.tlsClient("F", w.cs.Cred, w.cs.Fault) })
+		step("clientV2", func() { w.tlsClient("V2", "valid", "complete") })
+	}
 	if w.cs.Plain {
 		step("clientP", func() { w.plainClient() })
 	}
@@ -341,6 +350,9 @@ func c09Cases() []c09Case {
 				for _, between := range []bool{false, true} {
 					for _, plain := range []bool{true, false} {
 						out = append(out, c09Case{Config: cfg, Cred: cred, Fault: f, Between: between, Plain: plain})
+						if plain {
+							out = append(out, c09Case{Config: cfg, Cred: cred, Fault: f, Between: between, Plain: plain, Burst: true})
+						}
 					}
 				}
 			}
@@ -428,7 +440,7 @@ func init() {
 	fw.Register(&fw.Prop{
 		ID:    "C09",
 		Level: "model_checking",
-		Rule:  "complete product: server configuration {no rule, common-name rule, rule + password} x client credential {none, plain-text bytes, self-signed, foreign CA, expired, right CA wrong name, right name only on an intermediate, valid} x handshake fault {complete, abort after ClientHello, stall, garbage} x placement {faulty client first; between two valid clients} x plain port {on, off} = 384 scenarios. The server is configured through its public API and started with Start(); the REAL crypto/tls handshake runs on both sides over the in-memory transport under the cooperative scheduler (clients are tls.Client in harness threads). After the faulty client (and while a stalled one is still connected) a valid TLS client must complete handshake, GET and PING, and a plain client must PING; judged at quiescence, no timers. Quick: every schedule with at most one deviation from the default scheduler; thorough: two.",
+		Rule:  "complete product: server configuration {no rule, common-name rule, rule + password} x client credential {none, plain-text bytes, self-signed, foreign CA, expired, right CA wrong name, right name only on an intermediate, valid} x handshake fault {complete, abort after ClientHello, stall, garbage} x placement {faulty client first; between two valid clients} x plain port {on, off} = 384 scenarios, plus 192 'burst' scenarios in which the faulty client and the following valid client connect concurrently (their sockets can be accepted back to back). The server is configured through its public API and started with Start(); the REAL crypto/tls handshake runs on both sides over the in-memory transport under the cooperative scheduler (clients are tls.Client in harness threads). After the faulty client (and while a stalled one is still connected) a valid TLS client must complete handshake, GET and PING, and a plain client must PING; judged at quiescence, no timers. Quick: every schedule with at most one deviation from the default scheduler; thorough: two.",
 		Assumptions: []string{
 			"certificates are generated per run with crypto/x509 (ECDSA P-256); their random keys change bytes, not control flow",
 			"the in-memory transport stands for TCP; a stalled client is one that connects and never sends",
